@@ -101,6 +101,30 @@ def run(ctx):
             if back.shape != img.shape or not np.array_equal(back, img):
                 ctx.violation('random %dx%dx%d %d-bit image does not read back identically' % (h, w, ch, depth), {'h': h, 'w': w, 'channels': ch, 'depth': depth},
                               {'fn': 'save_image', 'what': 'random_image', 'depth': depth, 'channels': ch})
+        # ---------------- saving must not depend on (or change) the caller's array: save the same array twice, several dtypes
+        for dt in (np.float32, np.float64, np.uint8, np.uint16):
+            for depth, cmax in ((8, 255), (16, 65535)):
+                if dt == np.uint8 and depth == 16:
+                    continue
+                img = (np.arange(6 * 5 * 3).reshape(6, 5, 3) * (cmax // 100)).astype(dt)
+                keep = img.copy()
+                f1, f2 = os.path.join(tmp, 's1.png'), os.path.join(tmp, 's2.png')
+                NT.save_image(f1, img, cmin=0, cmax=cmax, color_depth=depth)
+                NT.save_image(f2, img, cmin=0, cmax=cmax, color_depth=depth)
+                ctx.case(('twice', str(dt), depth), True)
+                ctx.count('image/saved_twice/' + np.dtype(dt).name)
+                b1, b2 = NT.load_image(f1), NT.load_image(f2)
+                if not (np.array_equal(b1, keep.astype(np.float64)) and np.array_equal(b2, keep.astype(np.float64))):
+                    ctx.violation('saving the same %s array twice does not read back identically the second time (max error %g)'
+                                  % (np.dtype(dt).name, float(np.max(np.abs(b2 - keep)))), {'dtype': np.dtype(dt).name, 'depth': depth},
+                                  {'fn': 'save_image', 'what': 'second_save', 'dtype': np.dtype(dt).name})
+                t = torch.from_numpy(keep.astype(np.float32).copy())
+                f3, f4 = os.path.join(tmp, 's3.png'), os.path.join(tmp, 's4.png')
+                LT.save_image(f3, t, cmin=0, cmax=cmax, color_depth=depth)
+                NT.save_image(f4, t.numpy(), cmin=0, cmax=cmax, color_depth=depth)
+                if not filecmp.cmp(f3, f4, shallow=False):
+                    ctx.violation('torch save followed by NumPy save of the same data write different files (%d bit)' % depth,
+                                  {'depth': depth}, {'fn': 'learn.save_image', 'what': 'torch_then_numpy', 'depth': depth})
         # ---------------- dictionaries
         dicts = [{}, {'a': 1, 'b': [1, 2.5, None, True], 'c': {'d': 'x'}}, {'ünïcödé': 'значение', '日本': ['語', 1e-9, -3]},
                  {'nested': {'k%d' % i: [i, str(i), {'z': i * 0.5}] for i in range(20)}}]
